@@ -12,7 +12,7 @@ EXPLANATION = ("Real receive path (Memoer._serviceOneReceived, wiff, pick, verif
                "gram of a 2-gram memo produced by the real rend (4 zero-gram codes x base64/binary headers) gets ONE byte replaced by a "
                "SYMBOLIC byte (any value but the original) at a solver-chosen position, and is delivered before or after its honest "
                "partner gram; positions are partitioned by header field (code, gram number/count, memo id, signer id, body, signature). "
-               "Form 'truncate': the gram cut at every length. Form 'forge': an honest signer (self-certifying id / id whose current key, after rotation, is in the receiver's keep / digest id) and a second party with valid keys of its own - or holding the honest signer's RETIRED key - both write two-gram memos under the SAME memo id; all 24 arrival orders x an intermediate service pass at every point. Receivers with and without 'signed grams required'. Oracle: servicing never "
+               "Form 'prefix': the whole code + gram-number/count part (8 bytes base64, 6 bytes binary) of an unsigned gram symbolic at once. Form 'truncate': the gram cut at every length. Form 'forge': an honest signer (self-certifying id / id whose current key, after rotation, is in the receiver's keep / digest id) and a second party with valid keys of its own - or holding the honest signer's RETIRED key - both write two-gram memos under the SAME memo id; all 24 arrival orders x an intermediate service pass at every point. Receivers with and without 'signed grams required'. Oracle: servicing never "
                "raises; a receiver that requires signed grams delivers nothing except, possibly, exactly the honest memo with the honest "
                "signer id (which a mutation cannot produce unless the mutated byte is semantically void); in 'forge' every delivered memo is exactly what its reported signer signed with its current key; and state for undeliverable "
                "memos does not make later service passes raise.")
@@ -26,7 +26,7 @@ OUTSIDE = ['raw datagrams longer than the bound (longer ones are reached as muta
 STUBS = ['FakeSodium ideal signatures (comparison based on the receive side), FakeUUID, echo transport']
 ASSUMPTIONS = ['ideal signatures']
 REQUIRED_TAGS = ['unknown-code', 'too-short', 'not-b-prefix', 'mutated-code', 'mutated-gram-number', 'mutated-body', 'mutated-signature', 'mutated-signer-id', 'mutated-memo-id',
-                 'truncated', 'signed-required', 'binary-headers', 'base64-headers', 'honest-delivered', 'forge-same-memo-id', 'forge-honest-delivered', 'forge-other-party-delivered', 'unsigned-memo-to-signed-only-receiver']
+                 'truncated', 'signed-required', 'binary-headers', 'base64-headers', 'honest-delivered', 'forge-same-memo-id', 'forge-honest-delivered', 'forge-other-party-delivered', 'unsigned-memo-to-signed-only-receiver', 'symbolic-code-and-gram-number']
 RULE = 'tags: unknown codes, short datagrams, wrong first sextet, one mutated byte in each header field / body / signature, truncation, receivers that require signatures, both encodings'
 MEMO = 'héllo!'
 SOLVER_ROLE = 'symbolic execution of the receive path on symbolic datagram bytes; finite position/partner-order choices enumerated through the same path tree'
@@ -62,6 +62,8 @@ def partitions(tier):
                     ps.append(dict(name='mutate-%s-%s-g%d-%s' % (code, 'b2' if curt else 'b64', gi, fld), form='mutate', code=code, curt=curt, gi=gi, field=fld,
                                    allvalues=b['allvalues']))
                 ps.append(dict(name='truncate-%s-%s-g%d' % (code, 'b2' if curt else 'b64', gi), form='truncate', code=code, curt=curt, gi=gi))
+                if not signed and (curt or tier == 'thorough'):      # (base64 heads: thorough tier only, ~50 s CPU each); in a signed gram any change of the signed head is already decided by the signature (mutate form)
+                    ps.append(dict(name='prefix-%s-%s-g%d' % (code, 'b2' if curt else 'b64', gi), form='prefix', code=code, curt=curt, gi=gi))
             if signed:
                 for akind in ('B', 'D-rotated', 'E'):
                     for attacker in (('own-key', 'retired-key') if akind == 'D-rotated' else ('own-key',)):
@@ -226,6 +228,37 @@ def harness_mutate(sym, part):
     return run(partner_first, authic)
 
 
+def harness_prefix(sym, part):
+    """the whole code + gram-number part of a valid gram symbolic at once (several bytes wrong together)"""
+    patch_tables(sym)
+    vid, keep, signed, grams, memo = sym.untraced(lambda: make_grams(part['code'], part['curt']))
+    g = grams[part['gi']]
+    gcode = part['code'] if part['gi'] == 0 else memoing.Memoer.Pairs[part['code']]
+    f = fields(gcode, part['curt'], len(g))
+    k = f['gram-number'][1]
+    head = sym.bytes('head', k, minlen=k)
+    # the first sextet stays a 'b' of this encoding (other first bytes are the raw form's subject)
+    if part['curt']:
+        sym.constrain(head[0] >= 0o33 << 2)
+        sym.constrain(head[0] < 0o34 << 2)
+    else:
+        sym.constrain(head[0] >= 0o30 << 2)
+        sym.constrain(head[0] < 0o31 << 2)
+    partner_first = sym.cbool('partner_first')
+    authic = sym.cbool('authic') if signed else False
+    m = head + g[k:]
+    others = [x for j, x in enumerate(grams) if j != part['gi']]
+    rx = memoing.Memoer(echoic=True, authic=authic, keep=keep)
+    rx.opened = True
+    for x in ((others + [m]) if partner_first else ([m] + others)):
+        rx.echos.append((x, 'srcaddr'))
+    sym.cover('symbolic-code-and-gram-number')
+    ex = service(rx)
+    return check_outcome(sym, part, rx, ex, (vid, memo), signed,
+                         lambda: 'gram %d (%s) of %r with its first %d bytes replaced by %r, partner delivered %s, authic=%r' %
+                         (part['gi'], gcode, memo, k, bytes(head), 'first' if partner_first else 'after', authic))
+
+
 def harness_truncate(sym, part):
     vid, keep, signed, grams, memo = sym.untraced(lambda: make_grams(part['code'], part['curt']))
     gi = part['gi']
@@ -359,7 +392,7 @@ def harness_forge(sym, part):
 
 
 def harness(sym, part):
-    return {'raw': harness_raw, 'mutate': harness_mutate, 'truncate': harness_truncate, 'forge': harness_forge}[part['form']](sym, part)
+    return {'raw': harness_raw, 'mutate': harness_mutate, 'truncate': harness_truncate, 'forge': harness_forge, 'prefix': harness_prefix}[part['form']](sym, part)
 
 
 MUTANTS = [
